@@ -393,7 +393,9 @@ class CxxParser:
         else:
             raise CxxParseError("incomplete #include directive", tok)
 
-    def _process_pragma_directive(self, _: LexToken, doxygen: typing.Optional[str]):
+    def _process_pragma_directive(self, ptok: LexToken, doxygen: typing.Optional[str]):
+        self.state.location = ptok.location
+
         # consume all tokens until the end of the line
         # -- but if we find a paren, get the group
         tokens: LexTokenList = []
@@ -474,6 +476,7 @@ class CxxParser:
 
         if ns_alias:
             alias = NamespaceAlias(ns_alias.value, names)
+            state.location = location
             self.visitor.on_namespace_alias(state, alias)
             return
 
@@ -507,6 +510,7 @@ class CxxParser:
                 self.lex.return_token(etok)
             else:
                 # must be an extern template instantitation
+                self.state.location = tok.location
                 self._parse_template_instantiation(doxygen, True)
                 return
 
@@ -638,6 +642,7 @@ class CxxParser:
 
     def _parse_template(self, tok: LexToken, doxygen: typing.Optional[str]) -> None:
         if not self.lex.token_peek_if("<"):
+            self.state.location = tok.location
             self._parse_template_instantiation(doxygen, False)
             return
 
@@ -797,6 +802,7 @@ class CxxParser:
         if isinstance(state, ClassBlockState):
             raise CxxParseError("concept cannot be defined in a class")
 
+        state.location = tok.location
         self.visitor.on_concept(
             state,
             Concept(
